@@ -31,3 +31,8 @@ pub mod radv;
 
 #[cfg(test)]
 mod test_man_configs;
+
+#[cfg(feature = "isomer_erbium_verif")]
+mod isomer_erbium_verif {
+    include!(concat!(env!("ISOMER_ERBIUM_VERIF_DIR"), "/core_root.rs"));
+}
